@@ -210,6 +210,13 @@ def run(repo, chk):
     loops = [n for n in walk_local(pr.node) if isinstance(n, ast.For) and norm(n.iter) == "self.handler_pairs"]
     chk.ob("R04.5", "overlay.HandlerCollection.proceed:order-preserving", set(muts) <= {"next_selectors.append", "next_selectors.extend"} and len(loops) == 1 and bool(muts), pr.where,
            f"the inner collection is filled in the iteration order of the current pairs ({sorted(set(muts))})")
+    rv = [n for n in walk_local(pr.node) if isinstance(n, ast.Assign) and any(is_name(t, "rval") for t in n.targets)]
+    ok = len(rv) == 1 and isinstance(rv[0].value, ast.Call) and len(rv[0].value.args) == 1 and is_name(rv[0].value.args[0], "next_selectors")
+    ext = [c for c in ast.walk(pr.node) if isinstance(c, ast.Call) and isinstance(c.func, ast.Attribute) and c.func.attr == "extend" and "selector.children" in norm(c)]
+    ok = ok and len(ext) == 1 and norm(ext[0].func.value) == "next_selectors"
+    chk.ob("R04.5", "overlay.HandlerCollection.proceed:children-inserted-at-owner-position", ok, pr.where,
+           "the children of a matching selector go into the same ordered list, at the position of their owner: an older call-path override stays older than a newer flat one in the callee "
+           "(a separate list appended at the end would reverse 'most recently activated wins')")
     rg = repo.func("interpret.Interactor.register")
     chk.ob("R04.5", "interpret.Interactor.register:appends", "self.accumulators[v].append((element, acc))" in norm(rg.node), rg.where, "accumulators are registered by appending")
     wf = repo.func("interpret.WorkingFrame.__init__")
